@@ -91,7 +91,10 @@ Print Assumptions C06_multi_collector_arrival_order.
    the same, the plans are the same - import lists included - and every generator that reads only the four item lists
    of a crate's data writes the same files, byte for byte, leaves the same final state (Swift's Codable decision) and
    fails at the same crate if it fails.  The order of the per-FILE import set (visitors.rs:156) acts before the
-   collector: C06_multi_file_hash_order_irrelevant below. *)
+   collector: C06_multi_file_hash_order_irrelevant below.  (Since the /repo fix of finding C14-renamed-import
+   reconcile_aliases REBUILDS the per-crate import set with the generated names, reconcile.rs:71, and used_imports
+   iterates that new HashSet in an order of its own: Props/C14.v C14_import_list_order_irrelevant - the list is a
+   function of the set - makes that order irrelevant; cs_same compares the rebuilt sets as sets.) *)
 Theorem C06_multi_hash_order_irrelevant :
   forall (lang : lang) (l1 l2 : list (str * parsed)) (ho1 ho2 : list imported -> list imported) (hc1 hc2 : crate_types -> crate_types),
     Permutation l1 l2 -> Proofs.C06Multi.all_distinct (collect l1) -> Proofs.C06Multi.ws_ambiguity (collect l1) = None ->
@@ -138,8 +141,9 @@ Print Assumptions C06_ambiguous_imports_refuted.
 
 (* the hypotheses of C06_multi_hash_order_irrelevant are satisfiable by a non-trivial workspace: three crates, `use alpha::Item;`,
    `use beta::*;`, `use alpha::Node;` with Node serde-renamed AlphaNode, two files in the importing crate; the arrival list and
-   its reverse, the identity and the reversed iteration orders: in no class, app imports Item from ./alpha and everything
-   from ./beta, refers to AlphaNode, and the generated files coincide *)
+   its reverse, the identity and the reversed iteration orders: in no class, app imports Item and AlphaNode (the
+   name alpha generates Node under: the import set is put back with the generated names, reconcile.rs:71) from ./alpha and
+   everything from ./beta, refers to AlphaNode, and the generated files coincide *)
 Theorem C06_multi_nonvacuous :
   exists arrivals,
     parse_workspace uc_exec [] [] (fun l => l) Proofs.C06MultiWitness.ws_clean = Ok arrivals /\
@@ -148,7 +152,7 @@ Theorem C06_multi_nonvacuous :
     Proofs.C14Front.oracle_ok (@Proofs.C14Witness.idl (str * list str)) /\ Proofs.C14Front.oracle_ok (@rev (str * list str)) /\
     map fst (multi_crates Proofs.C14Witness.idl arrivals) = [lit "alpha"; lit "app"; lit "beta"] /\
     Proofs.C06MultiWitness.app_field_types (multi_crates (@rev _) (rev arrivals)) = [RSimple (lit "Item"); RSimple (lit "Leaf"); RSimple (lit "AlphaNode")] /\
-    Proofs.C06MultiWitness.app_imports (@rev _) (multi_crates (@rev _) (rev arrivals)) = [(lit "alpha", lit "Item"); (lit "beta", lit "Edge"); (lit "beta", lit "Leaf")] /\
+    Proofs.C06MultiWitness.app_imports (@rev _) (multi_crates (@rev _) (rev arrivals)) = [(lit "alpha", lit "AlphaNode"); (lit "alpha", lit "Item"); (lit "beta", lit "Edge"); (lit "beta", lit "Leaf")] /\
     generate_crates Proofs.C06MultiWitness.m_ts_gen [] (multi_plan TypeScript Proofs.C14Witness.idl (multi_crates Proofs.C14Witness.idl arrivals)) =
     generate_crates Proofs.C06MultiWitness.m_ts_gen [] (multi_plan TypeScript (@rev _) (multi_crates (@rev _) (rev arrivals))).
 Proof. exact Proofs.C06MultiWitness.multi_nonvacuous. Qed.
